@@ -166,7 +166,7 @@ def TailSpec (o : FormatOpts) (b : FBpb) (ft : FatType) (tc rootPos : Nat) (d d'
 structure FatRootPart (o : FormatOpts) (b : FBpb) (ft : FatType) (d d' : Dev) (Lz Lf Lr Lt : List LogItem) : Prop where
   seg : Seg d d' (Lt ++ (Lr ++ (Lf ++ Lz)))
   fatZero : TileAt (b.reserved * b.bps) (List.replicate (b.fats * b.sectorsPerFat * b.bps) 0) Lz
-  fmt : ∃ tc s dA dB dC, b.totalClusters = .ok tc ∧ Seg d dA Lz ∧ dA.img.size = d.img.size ∧
+  fmt : ∃ tc s dA dB dC, b.totalClusters = .ok tc ∧ Seg d dA Lz ∧ ImgRel d dA ∧ dA.img.size = d.img.size ∧
       run (Table.formatFat DiskSlice.strm ft (fatSliceOf (formatFsState b ft) false) b.media
         (b.sectorsPerFat * b.bps) tc) dA = (.ok s, dB) ∧ Seg dA dB Lf ∧
       Seg dB dC Lr ∧ dC.img.size = d.img.size ∧
@@ -206,15 +206,18 @@ theorem fmtFatRoot_trace (o : FormatOpts) (b : FBpb) (ft : FatType) (d d' : Dev)
               rw [hp5] at hLr
               have hsize2 : d2.img.size = d.img.size :=
                 (run_img_size _ _ _ _ h3).trans (run_img_size _ _ _ _ h1)
+              have himg2 : ImgRel d d2 := imgRel_ok.trans _ _ _
+                ((steps_of_ops imgRel_ok stepOp_imgRel _).out _ _ _ h1)
+                ((steps_of_ops imgRel_ok stepOp_imgRel _).out _ _ _ h3)
               have hsize6 : d6.img.size = d.img.size :=
                 (run_img_size _ _ _ _ h11).trans ((run_img_size _ _ _ _ h9).trans ((run_img_size _ _ _ _ h7).trans hsize2))
               obtain ⟨hpos, htail⟩ := fmtFat32_trace o b ft tc _ d6 d' u h12
               rcases htail with ⟨h32, La, Lc, Li, Ll, hp⟩ | ⟨h32, Ll, hsl, hll⟩
               · refine ⟨hpos, Lz, Lf, Lr, Ll ++ (Li ++ (Lc ++ La)), ?_, hLz,
-                  ⟨tc, s, d2, d4, d6, htc, hsz, hsize2, h7, hLf, hsr, hsize6, Or.inl ⟨h32, La, Lc, Li, Ll, rfl, hp⟩⟩, hLr⟩
+                  ⟨tc, s, d2, d4, d6, htc, hsz, himg2, hsize2, h7, hLf, hsr, hsize6, Or.inl ⟨h32, La, Lc, Li, Ll, rfl, hp⟩⟩, hLr⟩
                 exact ((hsz.trans hLf).trans hsr).trans hp.seg
               · refine ⟨hpos, Lz, Lf, Lr, Ll, ?_, hLz,
-                  ⟨tc, s, d2, d4, d6, htc, hsz, hsize2, h7, hLf, hsr, hsize6, Or.inr ⟨h32, hsl, hll⟩⟩, hLr⟩
+                  ⟨tc, s, d2, d4, d6, htc, hsz, himg2, hsize2, h7, hLf, hsr, hsize6, Or.inr ⟨h32, hsl, hll⟩⟩, hLr⟩
                 exact ((hsz.trans hLf).trans hsr).trans hsl
             · cases he
           · cases he
@@ -237,7 +240,7 @@ structure FormatLog (o : FormatOpts) (boot : FBoot) (ft : FatType) (d d' : Dev)
   bootT : TileAt 0 (bootTile boot 0) Lb
   backup : (boot.bpb.isFat32 = true ∧ TileAt (boot.bpb.backupBoot * boot.bpb.bps)
       (bootTile boot (boot.bpb.backupBoot * boot.bpb.bps)) Lk) ∨ (boot.bpb.isFat32 = false ∧ Lk = [])
-  rest : ∃ dK, Seg d dK (Lk ++ Lb) ∧ dK.img.size = d.img.size ∧ FatRootPart o boot.bpb ft dK d' Lz Lf Lr Lt
+  rest : ∃ dK, Seg d dK (Lk ++ Lb) ∧ ImgRel d dK ∧ dK.img.size = d.img.size ∧ FatRootPart o boot.bpb ft dK d' Lz Lf Lr Lt
 
 theorem fmtBoot_trace (o : FormatOpts) (boot : FBoot) (ft : FatType) (d d' : Dev) (u : Unit) (hpos : d.pos = 0)
     (hr : run (fmtBoot o boot ft) d = (.ok u, d')) :
@@ -260,6 +263,9 @@ theorem fmtBoot_trace (o : FormatOpts) (boot : FBoot) (ft : FatType) (d d' : Dev
         obtain ⟨Lb, hLb, hsb⟩ := (t0.append t3').tileAt
         rw [hpos] at hLb
         have hsize2 : d2.img.size = d.img.size := (run_img_size _ _ _ _ h3).trans (run_img_size _ _ _ _ h0)
+        have stepI : ∀ {α} (p : Prog α) (a : Dev) r b, run p a = (r, b) → ImgRel a b :=
+          fun p a r b h => (steps_of_ops imgRel_ok stepOp_imgRel p).out a r b h
+        have himg2 : ImgRel d d2 := imgRel_ok.trans _ _ _ (stepI _ _ _ _ h0) (stepI _ _ _ _ h3)
         split at h4
         · rename_i h32
           rcases run_bind_cases h4 with ⟨v5, d5, h5, h6⟩ | ⟨e, _, he⟩
@@ -273,7 +279,9 @@ theorem fmtBoot_trace (o : FormatOpts) (boot : FBoot) (ft : FatType) (d d' : Dev
                   have hsize8 : d8.img.size = d.img.size :=
                     (run_img_size _ _ _ _ h10).trans ((run_img_size _ _ _ _ h9).trans ((run_img_size _ _ _ _ h5).trans hsize2))
                   obtain ⟨hp, Lz, Lf, Lr, Lt, hfr⟩ := fmtFatRoot_trace o boot.bpb ft d8 d' u h11
-                  refine ⟨Lb, Lk, Lz, Lf, Lr, Lt, ?_, hp, hLb, Or.inl ⟨h32, hLk⟩, d8, hsb.trans hsk, hsize8, hfr⟩
+                  have himg8 : ImgRel d d8 := imgRel_ok.trans _ _ _ himg2 (imgRel_ok.trans _ _ _ (stepI _ _ _ _ h5)
+                    (imgRel_ok.trans _ _ _ (stepI _ _ _ _ h9) (stepI _ _ _ _ h10)))
+                  refine ⟨Lb, Lk, Lz, Lf, Lr, Lt, ?_, hp, hLb, Or.inl ⟨h32, hLk⟩, d8, hsb.trans hsk, himg8, hsize8, hfr⟩
                   have := (hsb.trans hsk).trans hfr.seg
                   simpa [List.append_assoc] using this
                 · cases he
@@ -282,7 +290,7 @@ theorem fmtBoot_trace (o : FormatOpts) (boot : FBoot) (ft : FatType) (d d' : Dev
           · cases he
         · rename_i h32
           obtain ⟨hp, Lz, Lf, Lr, Lt, hfr⟩ := fmtFatRoot_trace o boot.bpb ft d2 d' u h4
-          refine ⟨Lb, [], Lz, Lf, Lr, Lt, ?_, hp, hLb, Or.inr ⟨by simpa using h32, rfl⟩, d2, by simpa using hsb, hsize2, hfr⟩
+          refine ⟨Lb, [], Lz, Lf, Lr, Lt, ?_, hp, hLb, Or.inr ⟨by simpa using h32, rfl⟩, d2, by simpa using hsb, himg2, hsize2, hfr⟩
           have := hsb.trans hfr.seg
           simpa [List.append_assoc] using this
       · cases he
@@ -298,7 +306,8 @@ def fmtTotal (o : FormatOpts) (d : Dev) : Nat :=
 /-- **the write log of a successful `format_volume`** -/
 theorem formatVolume_trace (o : FormatOpts) (d d' : Dev) (hr : run (formatVolume o) d = (.ok (), d')) :
     ∃ boot ft, formatChecked o (fmtTotal o d) = .ok (boot, ft) ∧
-      ∃ Lb Lk Lz Lf Lr Lt d0, d0.log = d.log ∧ d0.img.size = d.img.size ∧ FormatLog o boot ft d0 d' Lb Lk Lz Lf Lr Lt := by
+      ∃ Lb Lk Lz Lf Lr Lt d0, d0.log = d.log ∧ d0.img.size = d.img.size ∧ ImgRel d d0 ∧
+        FormatLog o boot ft d0 d' Lb Lk Lz Lf Lr Lt := by
   rw [formatVolume_eq] at hr
   unfold fmtProg at hr
   rcases run_bind_cases hr with ⟨pos, d1, h1, h2⟩ | ⟨e, _, he⟩
@@ -334,7 +343,10 @@ theorem formatVolume_trace (o : FormatOpts) (d d' : Dev) (hr : run (formatVolume
         · obtain ⟨hfc, hd3⟩ := run_liftE_ok _ _ h5
           subst hd3
           obtain ⟨Lb, Lk, Lz, Lf, Lr, Lt, hlog⟩ := fmtBoot_trace o boot ft d3 d' () hp2 h6
-          exact ⟨boot, ft, hfc, Lb, Lk, Lz, Lf, Lr, Lt, d3, hl2, hs2, hlog⟩
+          have himg : ImgRel d d3 := imgRel_ok.trans _ _ _
+            ((steps_of_ops imgRel_ok stepOp_imgRel _).out _ _ _ h1)
+            ((steps_of_ops imgRel_ok stepOp_imgRel _).out _ _ _ h3)
+          exact ⟨boot, ft, hfc, Lb, Lk, Lz, Lf, Lr, Lt, d3, hl2, hs2, himg, hlog⟩
         · cases he
       · cases he
   · cases he
